@@ -441,6 +441,6 @@ int main(int argc, char** argv)
         if (run.out_of_time())
             break;
     }
-    runBfs(run, thorough ? 12 : 9);
+    runBfs(run, 16);   // runs until the frontier is empty: every reachable state of the alphabet is visited
     return run.finish();
 }
